@@ -86,7 +86,8 @@ def validate_traces(stage, module, cfg, traces, shards=None, timeout=900, heap='
             raise C.MachineryError('%s: trace shard %d not fully consumed (%r of %d lines)\n%s'
                                    % (module, i, done, counts[i], '\n'.join(r.out.splitlines()[-40:])))
         if os.environ.get('VERIF_DIFF') == '1':
-            last_diffs.extend(l for l in r.out.splitlines() if l.startswith('<<"DIFF"'))
+            import re as _re
+            last_diffs.extend(m.group(0) for m in _re.finditer(r'<<\s*"DIFF".*?(?=\n<<|\nFinished|\Z)', r.out, _re.S))
         return [(f[1], f[2], f[3]) for f in r.tuples('FAIL')], r.wall
     t0 = time.time()
     fails = []
